@@ -282,7 +282,19 @@ class Recon:
         try:
             return S.C(self.prog.fold(v, mi))
         except NotConst:
-            return S.unk("modlevel:" + ast.unparse(v)[:60])
+            pass
+        if isinstance(v, ast.Call) and not any(isinstance(x, (ast.Lambda, ast.ListComp, ast.GeneratorExp, ast.DictComp, ast.SetComp)) for x in ast.walk(v)):
+            # a module-level object built from constants (struct.Struct("<I"), re.compile(...)): the call term itself
+            key = ("modlevel", mi.mod.relpath, id(v))
+            if key not in self._stack:
+                self._stack.append(key)
+                try:
+                    t = self._e(FuncCtxLite(self.prog, mi), v, None, {}, False, 1)
+                finally:
+                    self._stack.pop()
+                if t[0] == "call" and t[1].startswith("ext:") and not S.contains(t, lambda x: isinstance(x, tuple) and x and x[0] == "unk"):
+                    return t
+        return S.unk("modlevel:" + ast.unparse(v)[:60])
 
     def _from_defs(self, ctx: FuncCtx, name, defs, at: Node, binds, depth, after=False):
         defs = sorted(defs, key=lambda d: d.node.id)
@@ -1077,6 +1089,10 @@ class FuncCtxLite:
         self.prog = prog
         self.mi = mi
         self.ci = None
+        self.func = None
+        self.cfg = None
+        self.is_static = False
+        self.is_classmethod = False
         self.qual = mi.mod.relpath + "::<module>"
 
 
